@@ -115,7 +115,13 @@ static void switch_to(int n) {
 
 static int take_choice(int k, int kind, int ce) {
     long idx = nchoices++;
-    if (idx >= VS_MAXCH) fatal(VS_F_INTERNAL, "too many choice points in one execution");
+    if (idx >= VS_MAXCH) {
+        /* very long executions (static-priority runs of big sessions): choices beyond the table are not recorded and cannot
+         * be deviated from; that is only an error while deviations are still pending */
+        if (nextdev < ndev) fatal(VS_F_INTERNAL, "deviation beyond the choice table");
+        mix(0x9e3779b9u);
+        return 0;
+    }
     nen[idx] = (uint8_t)k;
     cur_en[idx] = (uint8_t)ce;
     ch_kind[idx] = (uint8_t)kind;
@@ -410,7 +416,7 @@ extern "C" void vs_end(vs_result_t *out) {
     if (nextdev < ndev) fatal(VS_F_REPLAY, "replay divergence: execution ended before all deviations were applied");
     if (out) {
         out->npoints = npoints;
-        out->nchoices = nchoices;
+        out->nchoices = nchoices < VS_MAXCH ? nchoices : VS_MAXCH;
         out->forced_yields = forced;
         out->trace_hash = thash;
         out->nthreads = nT;
